@@ -137,7 +137,8 @@ class UpdaterModel:
         if not self.enum_mode:
             if v[0] == 'agg' and v[2] is not None:
                 return ('const', v[2], False)
-            if v[0] == 't' and v[1] == 'call' and v[2][0].endswith('::value'):
+            if v[0] == 't' and v[1] == 'call' and 'clock_bound_d' in v[2][0] and len(v[2]) == 3:
+                # a one-argument daemon method applied to the state object: the state's value()
                 from_step = any(s_ is not None and any(x == s_ for x in psi.walk(v)) for s_ in i['steps']) or \
                     any(s_ is None for s_ in i['steps'])
                 return ('fsm', fmt(v), from_step)
@@ -256,26 +257,32 @@ class UpdaterModel:
             return self._tables
         trans = {}
         values = {}
+        delegates = False
+        passthrough = False
+
+        def status_field(agg):
+            for f in agg[3]:
+                if f[0] == 'agg' and f[1].endswith('ClockStatus'):
+                    return f[2]
+            return None
+        # step-shaped methods of the daemon: (&self, ChronyClockStatus) in a trait impl.  One that returns a freshly built
+        # state object on every path is a row set of the transition table (for its Self type); one that returns the result
+        # of another such method on the same receiver and input delegates (the dyn entry point apply_chrony -> transition)
         for b in fb.bodies(common.DAEMON):
-            if b.name == 'new' and 'ShmClockState' in (b.impl_self or '') and b.argc == 0:
-                chk.saw(b)
-                for p in common.mk_engine(fb).run(b):
-                    if p.kind == 'return' and p.value[0] == 'agg':
-                        for f in p.value[3]:
-                            if f[0] == 'agg' and f[1].endswith('ClockStatus'):
-                                values[b.impl_self] = f[2]
-        bodies = [b for b in fb.bodies(common.DAEMON) if b.name == 'transition' and 'ShmClockState' in (b.impl_self or '')]
-        for b in bodies:
-            chk.saw(b)
+            if b.defkind == 'Closure' or b.argc != 2 or not b.impl_trait:
+                continue
+            if not b.tystr(b.locals[2]['ty']).endswith('ChronyClockStatus'):
+                continue
             eng = common.mk_engine(fb)
-            rows = {}
+            rows, deleg, concrete = {}, False, True
+            a2 = ('sym', b.debug_names.get(2, 'arg2'))
             for p in eng.run(b):
                 chk.analysed['paths'] += 1
                 if p.kind != 'return':
                     continue
                 inp = None
                 for term, op, val, _ in p.conds:
-                    if term[0] == 't' and term[1] == 'discr' and op == '==':
+                    if term == T('discr', a2) and op == '==':
                         inp = STATUS[val] if val < 3 else str(val)
                 v = p.value
                 tgt = None
@@ -283,35 +290,40 @@ class UpdaterModel:
                     pv = eng.load(p.state, v[1])
                     if pv[0] == 'agg':
                         tgt = pv[1]
-                        for f in pv[3]:
-                            if f[0] == 'agg' and f[1].endswith('ClockStatus'):
-                                values.setdefault(tgt, f[2])
+                        if status_field(pv) is not None:
+                            values.setdefault(tgt, status_field(pv))
+                elif v[0] == 'agg' and status_field(v) is not None:
+                    tgt = v[1]
+                    values.setdefault(tgt, status_field(v))
+                elif v[0] == 't' and v[1] == 'call' and len(v[2]) == 4 and v[2][3] == a2 and 'clock_bound_d' in v[2][0]:
+                    deleg = True
+                if tgt is None:
+                    concrete = False
                 if inp is not None:
                     rows[inp] = tgt
-            trans[b.impl_self] = rows
-        # value(): blanket impl returns the clock_status field
-        vb = [b for b in fb.bodies(common.DAEMON) if b.name == 'value' and 'ShmClockState' in (b.impl_self or '')]
-        passthrough = False
-        for b in vb:
+            if deleg and not rows:
+                chk.saw(b)
+                delegates = True
+            elif concrete and rows:
+                chk.saw(b)
+                trans[b.impl_self] = rows
+        # value-shaped methods: (&self) -> ClockStatus in a trait impl, returning a field of the state (or a constant per state)
+        for b in fb.bodies(common.DAEMON):
+            if b.defkind == 'Closure' or b.argc != 1 or not b.impl_trait or not b.tystr(b.locals[0]['ty']).endswith('ClockStatus'):
+                continue
+            if not any(b.impl_self.split('<')[0] == s_.split('<')[0] for s_ in trans):
+                continue
             chk.saw(b)
             eng = common.mk_engine(fb)
             for p in eng.run(b):
-                if p.kind == 'return' and fmt(p.value).endswith('clock_status'):
+                if p.kind != 'return':
+                    continue
+                v = p.value
+                if v[0] == 't' and v[1] == 'field' and self.updater_field(v) is not None:
                     passthrough = True
-                elif p.kind == 'return' and p.value[0] == 'agg' and p.value[1].endswith('ClockStatus') and not p.conds:
-                    # per-state value(): the state type itself determines the status
-                    values[b.impl_self] = p.value[2]
+                elif v[0] == 'agg' and v[1].endswith('ClockStatus') and not p.conds:
+                    values[b.impl_self] = v[2]
                     passthrough = True
-        ab = [b for b in fb.bodies(common.DAEMON) if b.name == 'apply_chrony']
-        delegates = False
-        for b in ab:
-            chk.saw(b)
-            eng = common.mk_engine(fb)
-            for p in eng.run(b):
-                if p.kind == 'return' and p.value[0] == 't' and p.value[1] == 'call' and p.value[2][0].endswith('::transition'):
-                    args = p.value[2][2:]
-                    if len(args) == 2 and fmt(args[1]) == 'update':
-                        delegates = True
         self._tables = (trans, values, passthrough, delegates)
         return self._tables
 
@@ -400,10 +412,10 @@ class UpdaterModel:
                 targs = ef['fn'].get('targs') or []
                 for t in targs:
                     ts = ctor.crate.types[t]['s']
-                    if 'ShmClockState' in ts:
+                    if True:
                         # run Default::default of that type
                         for b in fb.bodies(common.DAEMON):
-                            if b.name == 'default' and 'ShmClockState' in (b.impl_self or ''):
+                            if b.name == 'default' and (b.impl_trait or '').endswith('Default') and b.impl_self and b.impl_self.split('<')[0] in ts:
                                 chk.saw(b)
                                 for p in common.mk_engine(fb).run(b):
                                     if p.kind == 'return' and p.value[0] == 'agg':
